@@ -113,14 +113,14 @@ def check(chk: Check) -> None:
     F = chk.facts
     R1 = chk.rule('C06.R1', 'resolution matrix conforms: every shift/reduce decision the automaton made (by precedence or by '
                             'default, in every state) equals what the published operator table prescribes for that '
-                            '(completed production, lookahead) pair', floor=200)
+                            '(completed production, lookahead) pair', floor=100)
     R2 = chk.rule('C06.R2', 'nothing derivable is silently cut off: no reduce/reduce conflict, no production that is never '
                             'reduced unless its sentences are derived by a sibling, every default resolution belongs to '
                             'a justified family (greedy tail, index-vs-slice)', floor=3)
     R3 = chk.rule('C06.R3', 'lexer and grammar agree on the alphabet: every terminal is producible by the lexer, keyword '
-                            'terminals are in the keyword table, tokens and precedence rows are consistent', floor=40)
+                            'terminals are in the keyword table, tokens and precedence rows are consistent', floor=25)
     R4 = chk.rule('C06.R4', 'templates are well-kinded: fields receive values of the declared kind, no p[i] beyond the '
-                            'production, binary productions build op(text of the operator tokens, $1, $last)', floor=60)
+                            'production, binary productions build op(text of the operator tokens, $1, $last)', floor=40)
     R5 = chk.rule('C06.R5', 'the analysed tables are PLY\'s tables: own LALR(1) + yacc resolution equals the output of '
                             'ply/yacc.py\'s generator on the same grammar, state by state', floor=1)
     chk.decided += ['grouping: an LR parser\'s only freedom is how conflicts were resolved; every resolved cell is compared with the operator table (R1)',
